@@ -21,8 +21,13 @@
 (*        word `at' must begin a line, the first `fix' words of that line   *)
 (*        are a fixed prefix (register name, bullet), nb = 1: the chunk is  *)
 (*        an unbreakable row (sna2skool's <nowrap>); tabs = tables in order *)
+(*        (a table that stands behind a register name is on that line: the  *)
+(*        name is the fixed prefix, the table the one unit of the line)     *)
 (*     G (instruction group) [k, ins = <<addr, op, length of operation>>.., *)
-(*        w]                                                                *)
+(*        w, st, tabs]: st / tabs as in P for an instruction-level comment  *)
+(*        that holds #LIST / #TABLE blocks (ASM mode: an item begins a row  *)
+(*        behind its bullet, a table and the text behind a block begin a    *)
+(*        row; HTML: the cells of the table in the comment cell)            *)
 (*   out   projected output lines in order                                  *)
 (*     [kind, w, n, wl, cl, fl, op, addr, rs, warn, tab, cols, lf]          *)
 (*     kind "c" comment text, "s" empty comment line, "d" dot line,         *)
@@ -32,7 +37,9 @@
 (*     (op = 0: continuation row), rs rowspan of the html comment cell,     *)
 (*     warn = 1: skool2asm printed a warning quoting this line / table,     *)
 (*     tab = 1: the line stands for a whole rendered table (cols = words of *)
-(*     each column top to bottom; w = the table placeholder code),          *)
+(*     each column top to bottom; w = the table placeholder code); in an    *)
+(*     instruction group every row of a rendered table stays a row:         *)
+(*     tab = 1 the first (placeholder + cells), tab = 2 the others (w = <<>>)*)
 (*     lf = 1: the line ended in a bare LF although CRLF is configured      *)
 (*     (counted as drift "TERMINATOR", not a clause of C18)                 *)
 (* Verdict: "ok" or the first failing clause; drift (layout differs from    *)
@@ -66,11 +73,11 @@ IsSep(l) == Lkind(l) \in {"s", "d"}
 SkoolSyntax(c) == c.tool \in {"skool", "gen"}
 
 \* first index >= li that is not a separator line (Len+1 if none)
-SkipSeps(o, li) ==
-  LET S == { j \in li..Len(o) : ~IsSep(o[j]) } IN IF S = {} THEN Len(o) + 1 ELSE Wr!MinOf(S)
+RECURSIVE SkipSeps(_, _)
+SkipSeps(o, li) == IF li <= Len(o) /\ IsSep(o[li]) THEN SkipSeps(o, li + 1) ELSE li
 \* last index of the maximal run of lines of one kind that starts at p (p-1 if there is none)
-RunEnd(o, p, kind) ==
-  LET S == { j \in p..Len(o) : \A i \in p..j : Lkind(o[i]) = kind } IN IF S = {} THEN p - 1 ELSE Wr!MaxOf(S)
+RECURSIVE RunEnd(_, _, _)
+RunEnd(o, p, kind) == IF p <= Len(o) /\ Lkind(o[p]) = kind THEN RunEnd(o, p + 1, kind) ELSE p - 1
 \* rows of an instruction group of k instructions starting at p: up to the row before instruction k+1
 GroupEnd(o, p, k) ==
   LET r == RunEnd(o, p, "i")
@@ -79,6 +86,25 @@ GroupEnd(o, p, k) ==
      ELSE (CHOOSE j \in ops : Cardinality({ i \in ops : i < j }) = k) - 1
 LinesOf(o, p, q) == [j \in 1..(q - p + 1) |-> o[p + j - 1]]
 CountSep(o, a, b) == Cardinality({ j \in a..b : Lkind(o[j]) = "s" })
+
+--------------------------------------------------------------------------
+(* Tables with a column that may be wrapped (:w).  Documented (#TABLE): such a column is narrowed "so that    *)
+(* the table will be no more than <line width> characters wide when rendered" - a limit on the table itself,  *)
+(* i.e. the width of a description line (ParagraphWidth), wherever the table stands.  l = the line that       *)
+(* stands for the table (Lcl = its rendered width, Ln - Lcl = what stands in front of it), minw = the width   *)
+(* of its narrowest rendering (0: unknown).                                                                   *)
+(* TableTooWide: wider than documented although the narrowest rendering is not - a violation (for a table on  *)
+(*   a description line this is the same as "line > line width although minw + prefix fits").                 *)
+(* TableNotNarrowed: behind a register name / in a comment field less than a description line is available;   *)
+(*   the line exceeds the line width although the narrowest rendering would have fitted there: more than the  *)
+(*   documentation promises (lead's triage) - drift.  skool2asm must still warn (warn-table / warn-row).      *)
+TableTooWide(l, W, minw) ==
+  /\ W > 0 /\ Ltab(l) = 1 /\ minw > 0
+  /\ \/ Lcl(l) > Wr!ParagraphWidth(W) /\ minw <= Wr!ParagraphWidth(W)
+     \/ Ln(l) - Lcl(l) <= 2 /\ Ln(l) > W /\ minw + (Ln(l) - Lcl(l)) <= W
+TableNotNarrowed(l, W, minw) ==
+  /\ W > 0 /\ Ltab(l) = 1 /\ minw > 0 /\ ~TableTooWide(l, W, minw)
+  /\ Ln(l) > W /\ minw + (Ln(l) - Lcl(l)) <= W
 
 --------------------------------------------------------------------------
 (* paragraph-like blocks *)
@@ -110,11 +136,10 @@ JudgeP(c, it, p, q, nsec) ==
   ELSE IF Len(tabLines) # Len(it.tabs) THEN <<"table-count", 0>>
   ELSE IF \E i \in 1..Len(it.tabs) : Lcols(tabLines[i]) # it.tabs[i].cols THEN <<"table-cells", 0>>
   ELSE IF \E j \in 1..n : ~Wr!LineOK(Ln(ls[j]), c.W, units(j), excused(j)) THEN <<"width", 0>>
-  ELSE IF c.W > 0 /\ \E j \in 1..n : Ltab(ls[j]) = 1 /\ Ln(ls[j]) > c.W /\ it.tabs[tabNo(j)].minw > 0
-                                    /\ it.tabs[tabNo(j)].minw + (Ln(ls[j]) - Lcl(ls[j])) <= c.W THEN <<"table-width", 0>>
   ELSE IF c.tool = "asm" /\ \E j \in 1..n : Lwl(ls[j]) > c.W /\ Ltab(ls[j]) = 1 /\ Lwarn(ls[j]) = 0 THEN <<"warn-table", 0>>
+  ELSE IF \E j \in 1..n : Ltab(ls[j]) = 1 /\ TableTooWide(ls[j], c.W, it.tabs[tabNo(j)].minw) THEN <<"table-width", 0>>
   ELSE IF c.tool = "asm" /\ \E j \in 1..n : Lwl(ls[j]) > c.W /\ Ltab(ls[j]) = 0 /\ Lwarn(ls[j]) = 0 THEN <<"warn-comment", 0>>
-  ELSE <<"ok", drift>>
+  ELSE <<"ok", drift, Cardinality({ j \in 1..n : Ltab(ls[j]) = 1 /\ TableNotNarrowed(ls[j], c.W, it.tabs[tabNo(j)].minw) })>>
 
 --------------------------------------------------------------------------
 (* instruction groups *)
@@ -126,41 +151,59 @@ JudgeG(c, it, p, q) ==
       insIdx == SelectSeq(Wr!Iota(n), LAMBDA j : Lop(rs[j]) # 0)
       toks == Wr!Flatten([j \in 1..n |-> Lw(rs[j])])
       words == IF SkoolSyntax(c) THEN Wr!Rendered(toks) ELSE toks
-      nlines == Cardinality({ j \in 1..n : Len(Lw(rs[j])) > 0 })
-      overOK(j) == Wr!LineOK(Ln(rs[j]), c.W, Len(Lw(rs[j])), Lcl(rs[j]) <= c.cwmin)
+      \* blocks in the comment: rows that must begin at given words (it.st as in JudgeP), the bullet of a list
+      \* item is a fixed prefix of its row, a rendered table is one unbreakable unit
+      firsts == [j \in 1..n |-> 1 + Wr!SumSeq([i \in 1..(j - 1) |-> Len(Lw(rs[i]))])]
+      starts == { it.st[s][1] : s \in 1..Len(it.st) }
+      stOf(j) == { s \in 1..Len(it.st) : it.st[s][1] = firsts[j] /\ Len(Lw(rs[j])) > 0 }
+      fixAt(j) == IF stOf(j) = {} THEN 0 ELSE it.st[CHOOSE s \in stOf(j) : TRUE][2]
+      units(j) == Len(Lw(rs[j])) - fixAt(j)
+      blk == Len(it.st) > 0 \/ Len(it.tabs) > 0
+      tabRows == SelectSeq(rs, LAMBDA l : Ltab(l) = 1)
+      tabNo(j) == Cardinality({ i \in 1..j : Ltab(rs[i]) = 1 })
+      overOK(j) == Wr!LineOK(Ln(rs[j]), c.W, units(j), Lcl(rs[j]) <= c.cwmin)
       \* drift: comment lines not packed from the first row down / continuation rows before the last
       \* instruction / a break although the next word would have fitted
       \* a last row that holds nothing but the closing braces of the group (codes 1..9) is placed by the
       \* instruction it closes, not by the wrapping
       closingOnly(j) == SkoolSyntax(c) /\ j = n /\ Wr!Braced(toks) /\ Len(Lw(rs[j])) > 0
                         /\ \A i \in 1..Len(Lw(rs[j])) : Lw(rs[j])[i] \in 1..9
-      hasText(j) == Len(Lw(rs[j])) > 0 /\ ~closingOnly(j)
+      hasText(j) == (Len(Lw(rs[j])) > 0 \/ Ltab(rs[j]) # 0) /\ ~closingOnly(j)
       unpacked == Cardinality({ j \in 1..(n - 1) : ~hasText(j) /\ hasText(j + 1) })
       early == Cardinality({ j \in 1..(n - 1) : Lop(rs[j]) = 0 /\ Lop(rs[j + 1]) # 0 })
       \* where the comment field should begin according to the documented field widths (Wrap.tla)
       column == IF c.tool = "asm" THEN Wr!AsmCommentColumn(c.ind, c.iw, Wr!MaxOf({ it.ins[j][3] : j \in 1..it.k }))
                 ELSE Wr!SkoolCommentColumn(c.iw, c.eop)
-      misaligned == Cardinality({ j \in 1..n : c.W > 0 /\ Lcl(rs[j]) > 0 /\ Ln(rs[j]) - Lcl(rs[j]) # column })
+      \* (the continuation lines of a list item are indented by the bullet, text behind a block by one blank)
+      misaligned == Cardinality({ j \in 1..n : /\ c.W > 0 /\ Lcl(rs[j]) > 0
+                                               /\ IF blk THEN Ln(rs[j]) - Lcl(rs[j]) \notin column..(column + 2)
+                                                  ELSE Ln(rs[j]) - Lcl(rs[j]) # column })
+      notNarrowed == Cardinality({ j \in 1..n : Ltab(rs[j]) = 1 /\ TableNotNarrowed(rs[j], c.W, it.tabs[tabNo(j)].minw) })
       broke == Cardinality({ j \in 1..(n - 1) :
                   /\ c.W > 0 /\ ~closingOnly(j + 1)
+                  /\ Ltab(rs[j]) = 0 /\ Ltab(rs[j + 1]) = 0 /\ stOf(j + 1) = {}
                   /\ \/ Wr!BrokeEarly(Lcl(rs[j]), Lfl(rs[j + 1]), Lcl(rs[j]) + c.W - Ln(rs[j]))
-                     \/ Wr!BrokeEarly(Lcl(rs[j]), Lfl(rs[j + 1]), c.cwmin) })
+                     \/ ~blk /\ Wr!BrokeEarly(Lcl(rs[j]), Lfl(rs[j + 1]), c.cwmin) })
   IN
   IF Len(insIdx) # it.k THEN <<"instr-count", 0>>
   ELSE IF \E j \in 1..it.k : Lop(rs[insIdx[j]]) # it.ins[j][2] THEN <<"instr-operation", 0>>
   ELSE IF c.tool # "asm" /\ \E j \in 1..it.k : Laddr(rs[insIdx[j]]) # it.ins[j][1] THEN <<"instr-address", 0>>
   ELSE IF SkoolSyntax(c) /\ Wr!BraceExtent(c.out, p) # q THEN <<"group-extent", 0>>
   ELSE IF words # it.w THEN <<"group-words", 0>>
+  ELSE IF \E s \in starts : ~\E j \in 1..n : firsts[j] = s /\ Len(Lw(rs[j])) > 0 THEN <<"line-start", 0>>
+  ELSE IF Len(tabRows) # Len(it.tabs) THEN <<"table-count", 0>>
+  ELSE IF \E i \in 1..Len(it.tabs) : Lcols(tabRows[i]) # it.tabs[i].cols THEN <<"table-cells", 0>>
   ELSE IF c.tool = "html" /\ (Lrs(rs[1]) # it.k \/ \E j \in 2..n : Lrs(rs[j]) # 0 \/ Len(Lw(rs[j])) > 0) THEN <<"rowspan", 0>>
   ELSE IF \E j \in 1..n : ~overOK(j) THEN <<"width-row", 0>>
+  ELSE IF \E j \in 1..n : Ltab(rs[j]) = 1 /\ TableTooWide(rs[j], c.W, it.tabs[tabNo(j)].minw) THEN <<"table-width", 0>>
   ELSE IF c.tool = "asm" /\ \E j \in 1..n : Lwl(rs[j]) > c.W /\ Lwarn(rs[j]) = 0 THEN <<"warn-row", 0>>
-  ELSE <<"ok", IF c.tool = "gen" THEN 0 ELSE unpacked + early + broke + misaligned>>
+  ELSE <<"ok", IF c.tool = "gen" THEN 0 ELSE unpacked + early + broke + misaligned, notNarrowed>>
 
 --------------------------------------------------------------------------
-RECURSIVE Walk(_, _, _, _, _)
-Walk(c, ei, li, nsec, drift) ==
+RECURSIVE Walk(_, _, _, _, _, _)
+Walk(c, ei, li, nsec, drift, narrow) ==
   IF ei > Len(c.exp)
-  THEN IF \A j \in li..Len(c.out) : IsSep(c.out[j]) THEN <<"ok", drift>> ELSE <<"extra-lines", drift>>
+  THEN IF \A j \in li..Len(c.out) : IsSep(c.out[j]) THEN <<"ok", drift, narrow>> ELSE <<"extra-lines", drift, narrow>>
   ELSE
   LET it == c.exp[ei] IN
   IF it.t = "P"
@@ -168,19 +211,24 @@ Walk(c, ei, li, nsec, drift) ==
            ns2 == nsec + CountSep(c.out, li, p - 1)
            q == RunEnd(c.out, p, "c")
            r == JudgeP(c, it, p, q, ns2)
-       IN IF r[1] # "ok" THEN <<r[1] \o "@" \o ToString(ei), 0>> ELSE Walk(c, ei + 1, q + 1, ns2, drift + r[2])
+       IN IF r[1] # "ok" THEN <<r[1] \o "@" \o ToString(ei), 0, 0>>
+          ELSE Walk(c, ei + 1, q + 1, ns2, drift + r[2], narrow + r[3])
   ELSE LET p == SkipSeps(c.out, li)
            q == GroupEnd(c.out, p, it.k)
            r == JudgeG(c, it, p, q)
-       IN IF r[1] # "ok" THEN <<r[1] \o "@" \o ToString(ei), 0>> ELSE Walk(c, ei + 1, q + 1, nsec, drift + r[2])
+       IN IF r[1] # "ok" THEN <<r[1] \o "@" \o ToString(ei), 0, 0>>
+          ELSE Walk(c, ei + 1, q + 1, nsec, drift + r[2], narrow + r[3])
 
-Judge(c) == IF c.exc # "" THEN <<"exception", 0>> ELSE Walk(c, 1, 1, 0, 0)
+Judge(c) == IF c.exc # "" THEN <<"exception", 0, 0>> ELSE Walk(c, 1, 1, 0, 0, 0)
 
 Init == tid \in 1..Len(Cases) /\ verdict = "pending"
 \* not part of C18 (lead's triage): lines that end in a bare LF although CRLF is configured are only counted
 BareLf(c) == Cardinality({ j \in 1..Len(c.out) : Llf(c.out[j]) = 1 })
+\* DRIFT: wrap points / row packing differ from the reference; NARROW: tables not narrowed to a place narrower
+\* than a description line (TableNotNarrowed); TERMINATOR: bare LF
 Say(r) == /\ IF r[1] = "ok" THEN TRUE ELSE PrintT(<<"FAIL", tid, r[1]>>)
           /\ IF r[2] = 0 THEN TRUE ELSE PrintT(<<"DRIFT", tid, r[2]>>)
+          /\ IF r[3] = 0 THEN TRUE ELSE PrintT(<<"NARROW", tid, r[3]>>)
           /\ IF BareLf(Cases[tid]) = 0 THEN TRUE ELSE PrintT(<<"TERMINATOR", tid, BareLf(Cases[tid])>>)
 Next == /\ verdict = "pending"
         /\ LET r == Judge(Cases[tid]) IN verdict' = r[1] /\ Say(r)
